@@ -46,6 +46,7 @@ var enums = map[string]func(tier string, deadline time.Time) *run.EnumResult{
 }
 
 var mspecs = map[string]func(tier string) []*mc.MSpec{
+	"C02": mspecsC02,
 	"C08": mspecsC08,
 	"C09": mspecsC09,
 }
